@@ -385,7 +385,7 @@ func checkC05(p *Prog, l *Ledger) {
 		ok := len(evs) >= 1
 		nret := 0
 		for _, e := range evs {
-			if e.Op == "flagtest" {
+			if e.Op == "flagtest" || quietOps[e.Op] {
 				continue
 			}
 			if e.Op != "return" || e.KV["r1.Type"] != want {
